@@ -11,7 +11,7 @@ from pyvc.values import (Val, VI, VB, VS, VNone, VTok, VOpt, VTuple, VSeq, VList
 from pyvc import ops
 from pyvc.ops import ser, str_strip
 from .base import REG
-from .tree import (SL, TL, TAg, BARE, NW, tight, gapped, isbare, kind, body, eargs, ename, epos, etok, kind_of, KINDS,
+from .tree import (AA, SL, TL, TAg, BARE, NW, tight, gapped, isbare, kind, body, eargs, ename, epos, etok, kind_of, KINDS,
                    sl_facts, snoc_facts, nw_lit, as_eseq, publish, PUBLISH_HOOKS)
 
 GROUPS = ['data.BraceGroup', 'data.BracketGroup']
@@ -44,7 +44,7 @@ for _case, _argty, _items in (('args-TexArgs', 'TexArgs', 'args.items'), ('args-
         types={'self': 'UExpr', 'name': 'strlike', 'contents': 'elist', 'args': _argty, 'preserve_whitespace': 'bool',
                'position': 'int'},
         modifies=['self.name', 'self.args', 'self.contents', 'self.position'],
-        requires=[A('arguments-are-groups-or-commands', 'forall(k, 0, len(%s), isarg(%s[k]))' % (_items, _items))],
+        requires=[A('arguments-are-groups-or-commands', 'allargs(%s)' % _items)],
         ensures=[P(['C01', 'C08', 'C14'], 'name', 'self.name == strip(name)'),
                  P(['C01', 'C08'], 'contents', 'self.contents == eseq(contents)'),
                  P(['C01', 'C08'], 'args', 'self.args.items == %s' % _items),
@@ -71,11 +71,11 @@ REG.attr_hooks.insert(0, parent_store_hook)
 # NOTE: these contracts are *assumed* where the readers use them until the C18 block verifies the bodies.
 REG.add(Contract('data.TexArgs.__init__', case='list', types={'self': 'TexArgs', 'args': 'elist'},
                  modifies=['self.items'],
-                 requires=[A('groups-or-commands', 'forall(k, 0, len(eseq(args)), isarg(eseq(args)[k]))')],
+                 requires=[A('groups-or-commands', 'allargs(eseq(args))')],
                  ensures=[P(['C18'], 'items', 'self.items == eseq(args)')]))
 REG.add(Contract('data.TexArgs.__init__', case='copy', types={'self': 'TexArgs', 'args': 'TexArgs'},
                  modifies=['self.items'],
-                 requires=[A('groups-or-commands', 'forall(k, 0, len(args.items), isarg(args.items[k]))')],
+                 requires=[A('groups-or-commands', 'allargs(args.items)')],
                  ensures=[P(['C18'], 'items', 'self.items == args.items')]))
 
 
@@ -224,7 +224,8 @@ def head_unfold(eng, st, b, pre):
     st.fact(Implies(nonempty, And(SL(xs) == Concat(ser(head), SL(tail)),
                                   NW(SL(xs)) == Concat(NW(ser(head)), NW(SL(tail))),
                                   TAg(xs) == And(tight(head), Not(gapped(head)), Not(bare_h), TAg(tail)),
-                                  BARE(xs) == Or(bare_h, BARE(tail)))))
+                                  BARE(xs) == Or(bare_h, BARE(tail)),
+                                  AA(xs) == And(T.is_arg_kind(head), AA(tail)))))
     for fn in HEAD_HOOKS:
         fn(st, xs, head, tail, nonempty)
     sl_facts(st, tail)
@@ -265,3 +266,38 @@ def _append_hook(eng, st, b, pre):
 
 for _c in REG.contracts['data.TexExpr.append']:
     _c.hooks.append(_append_hook)
+
+
+# ---------------------------------------------------------------------- NW image of the serialiser equations
+def _nw_of_str(pieces):
+    def hook(eng, st, b, pre):
+        from .tree import nw_concat
+        obj = b['self']
+        f = st.heap[obj.a['ref']]
+        A_ = st.heap[f['args'].a['ref']]['items'].z
+        C_ = f['contents'].z
+        parts = []
+        for p in pieces:
+            if p == 'A':
+                parts.append(SL(A_))
+            elif p == 'C':
+                parts.append(SL(C_))
+            elif p == 'name':
+                parts.append(f['name'].z)
+            elif p.startswith('attr:'):
+                parts.append(pystr(eng.repo.class_attr(obj.a['cls'], p[5:])))
+            else:
+                parts.append(pystr(p))
+        z = Concat(*parts)
+        st.fact(strz(b['result']) == z)
+        nw_concat(st, z)
+        st.fact(NW(strz(b['result'])) == NW(z))
+    return hook
+
+
+REG.contracts['data.TexCmd.__str__'][0].hooks.append(_nw_of_str(['\\', 'name', 'A', 'C']))
+for _c in REG.contracts['data.TexEnv.__str__']:
+    if _c.case == 'TexNamedEnv':
+        _c.hooks.append(_nw_of_str(['\\begin{', 'name', '}', 'A', 'C', '\\end{', 'name', '}']))
+    else:
+        _c.hooks.append(_nw_of_str(['attr:begin', 'A', 'C', 'attr:end']))
